@@ -174,7 +174,27 @@ def reference(case):
         if t is None or isinstance(t, refsem.Broken):
             return {'err': True}
         res[n] = t
-    return {'ok': res, 'single': isinstance(final, str)}
+    # an output name of the decorated function that is NOT asked for in `final` but has a broken inverse (an inverse that needs an
+    # input no layer provides): "an output name without an inverse path is rejected with an error" - the code may reject the
+    # decoration as a whole (it does so when the missing input is required), or leave that output out; both satisfy the property
+    outs = [outputs] if isinstance(outputs, str) else list(outputs)
+    may_reject = any(isinstance(back.get(n), refsem.Broken) for n in outs if n not in fin)
+    # a chain that is unusable by itself (C18: a required field with an unreachable input, e.g. a layer's own pass-through of a name
+    # it inherits and consumes) may be rejected as a whole: the decorated function is built from the same nodes
+    try:
+        if refsem.resolve(stack).get('dependency_error'):
+            may_reject = True
+    except Exception:
+        may_reject = True
+    # likewise a chain in which a private parameter of some layer reads a forward input that no earlier layer provides: every
+    # inverse field of every layer is part of the decorated graph, so a broken one (also one that was not asked for) may make the
+    # decoration fail with DependencyError (reading 7 of DESIGN.md section 7)
+    for i, d in enumerate(flat):
+        for spec in (d.get('params') or {}).values():
+            for a in spec.get('args', []):
+                if not a.startswith('_') and isinstance(look(pres[i], a, i), refsem.Broken):
+                    may_reject = True
+    return {'ok': res, 'single': isinstance(final, str), 'may_reject': may_reject}
 
 
 def run_case(seed):
@@ -235,7 +255,8 @@ def compare(rec, ans):
     else:
         want = canon(value_of(ref))
         if 'err' in real:
-            oracle = f'the code raised {real["err"]} but forward -> f -> inverses (reverse order) gives {want[:200]}'
+            if not (ref.get('may_reject') and real['err'] == 'DependencyError'):
+                oracle = f'the code raised {real["err"]} but forward -> f -> inverses (reverse order) gives {want[:200]}'
         elif canon(real['ok']) != want:
             oracle = f'the code returned {canon(real["ok"])[:250]} but forward -> f -> inverses (reverse order) gives {want[:250]}'
         elif len(real['calls']) != len(set(real['calls'])):
